@@ -67,6 +67,30 @@ CHECKS["C08"] = dict(
          "expiry)) reaches the timeout; no client-initiated close otherwise.",
     technique="explicit-state BFS over real executions with clock-region corners against a timed reference monitor")
 
+CHECKS["C09"] = dict(
+    level="model_checking", design="DESIGN.md §6 C09",
+    text="Real init() of AirTouch4/5 against the simulated console for every installation with up to 3 ACs x 5 zones (quick; "
+         "4 x 6 thorough) and every zone-to-AC assignment expressible in the format (AT4 bitmap: arbitrary; AT4 old format and "
+         "AT5: contiguous), structured families to 16 zones, nonsense start/count, AT5 zero zones; answers whole and byte by "
+         "byte; one or two extra frames from 9 kinds before the answer of each of the six steps; silence at each step; connect "
+         "latency around 5 s and 1-3 refusals. Oracle: six requests in the fixed order one at a time, True at the time of the "
+         "last answer, model equals the installation; silent console: False at exactly 5 s, no exception, no hang.",
+    technique="exhaustive enumeration of console behaviours (configurations x interleaved frames x silence points), one real execution each")
+CHECKS["C10"] = dict(
+    level="model_checking", design="DESIGN.md §6 C10",
+    text="Every defined power x mode x fan x flag combination, every raw set-point, temperatures across the raw range, timers, "
+         "error code x text and version strings are sent as status frames to a real initialised client and every public getter "
+         "is compared with the reference view; plus all frame histories of length <= 3 (4 thorough) over a 13-frame menu "
+         "(two entities, repeats, partial frames, unknown ids, text before/after its code).",
+    technique="exhaustive enumeration of frame histories up to a depth against a latest-record reference model")
+CHECKS["C12"] = dict(
+    level="model_checking", design="DESIGN.md §6 C12",
+    text="All event histories of length <= 3 (4 thorough) over 14 events (changed/identical AC, zone, all-zones, timer, error "
+         "text and version frames; subscribe twice; unsubscribe; subscribers start raising), in both sibling orders, with 9 "
+         "subscribers on the AirTouch, two ACs and two zones. After each frame: must-be-called (exposed attribute changed), "
+         "must-not-be-called (identical repeat), right identifier, twins equal, unsubscribed silent, model still updated.",
+    technique="exhaustive enumeration of event histories up to a depth against a reference diff model")
+
 NOT_YET = {}
 
 
